@@ -28,6 +28,13 @@ CLAIMED["C09"] = (
     "DESIGN.md §2 E-PAIRING, §3 C09",
 )
 
+CLAIMED["C10"] = (
+    "ast rules over LaneletNetwork/Scenario: frozen reference-field table vs the assignments in each cleanup_* function (filter against the right registry's id set), must-follow of cleanup after every registry deletion, reaching-definition checks of the cut-out filters, provenance of the hanging-member set difference",
+    "Decides that every id-valued reference field (15 fields in 4 holder classes) is re-filtered by the matching cleanup, that every deletion from _lanelets/_traffic_signs/_traffic_lights is followed by that cleanup on its path, that the cut-out intersects every intersection reference with the kept ids and copies exactly the signs/lights of kept lanelets, and that hanging signs/lights are (referenced by removed) minus (referenced by remaining). Does not decide that untouched relations keep their values.",
+    "Trusts the frozen reference-field table (a new id-valued field would have to be added there) and well-formed stop lines (as the property assumes).",
+    "DESIGN.md §3 C10",
+)
+
 NOT_APPLICABLE = {
     "C17": "modular arithmetic over runtime integers (%, cumsum, argmax): no sound static argument in reach; the only structural part (memo freshness) is decided under C11, and 'TrafficLight delegates to its cycle' is sufficient but not necessary, so a rule on it would fire on behaviour-preserving edits",
 }
